@@ -33,12 +33,18 @@ Definition streams_of (c : cfg) : list stream :=
   ++ [SProfiles] ++ (if dist c then [SProfilesDist] else []).
 
 (* ------------------------------------------------------------------ injected outcomes, results, events *)
-Inductive outcome := OOk | OBefore | OAfter.
-(* ROk: the call succeeded; RErr: the database rejected it (no effect); RFBefore: injected failure, nothing
-   happened; RFAfter: the effect happened, then the caller saw a failure (or the process was killed) *)
-Inductive res := ROk | RErr | RFBefore | RFAfter.
+(* OPartial skip: an ON CLUSTER statement runs on the hosts whose bit in `skip` is false (missing bits are
+   false) and the caller sees an error (a host was down, distributed_ddl_task_timeout, ...) *)
+Inductive outcome := OOk | OBefore | OAfter | OPartial (skip : list bool).
+(* ROk: the call succeeded; RErr: the database rejected it (on one server: no effect; on a cluster: the hosts
+   that accepted it keep its effect); RFBefore: injected failure, nothing happened; RFAfter: the effect
+   happened, then the caller saw a failure (or the process was killed); RFPartial: the effect happened on
+   some of the hosts only and the caller saw a failure *)
+Inductive res := ROk | RErr | RFBefore | RFAfter | RFPartial.
 Definition res_ok (r : res) : bool := match r with ROk => true | _ => false end.
 Definition res_applied (r : res) : bool := match r with ROk | RFAfter => true | _ => false end.
+(* the statement reached the database *)
+Definition res_reached (r : res) : bool := match r with RFBefore => false | _ => true end.
 
 Inductive event :=
  | ECreateVer (r : res)                       (* CREATE TABLE IF NOT EXISTS ver *)
@@ -54,9 +60,13 @@ Definition fault_at (n : nat) (o : outcome) : list outcome := repeat OOk n ++ [o
 Section Proto.
   Variables (cat stmt : Type).
   Variable exec : stmt -> cat -> option cat.      (* None = the database rejects the statement *)
+  (* the state a statement leaves when it does not complete: it ran on the hosts not in `skip` that accept
+     it.  One server: the identity.  pexec [] is what a rejected statement leaves behind. *)
+  Variable pexec : list bool -> stmt -> cat -> cat.
   Variable scripts : stream -> list stmt.          (* getSQLFile of the six embedded files *)
 
-  (* database state: the objects the scripts manage, whether ver / ver_dist exist, max(ver) per stream *)
+  (* database state: the objects the scripts manage, whether ver / ver_dist exist (on every host), max(ver)
+     per stream *)
   Record db := { d_cat : cat; d_ver_tbl : bool; d_vd_tbl : bool; d_vers : stream -> nat }.
 
   Definition set_cat (d : db) (c : cat) : db :=
@@ -74,14 +84,18 @@ Section Proto.
     if (if clustered c then d_vd_tbl d && d_ver_tbl d else d_ver_tbl d) then Some d else None.
   Definition eff_script (x : stmt) (d : db) : option db :=
     match exec x (d_cat d) with Some c' => Some (set_cat d c') | None => None end.
+  Definition peff_script (x : stmt) (skip : list bool) (d : db) : db := set_cat d (pexec skip x (d_cat d)).
   Definition eff_setver (k : stream) (v : nat) (d : db) : option db :=
     if d_ver_tbl d then Some (set_ver d k v) else None.
+  (* the calls on ver / ver_dist: "exists on every host" stays as it was unless the call succeeds *)
+  Definition peff_none (skip : list bool) (d : db) : db := d.
 
-  Definition do_call (o : outcome) (eff : db -> option db) (d : db) : db * res :=
+  Definition do_call (o : outcome) (eff : db -> option db) (peff : list bool -> db -> db) (d : db) : db * res :=
     match o with
     | OBefore => (d, RFBefore)
-    | OAfter => match eff d with Some d' => (d', RFAfter) | None => (d, RErr) end
-    | OOk => match eff d with Some d' => (d', ROk) | None => (d, RErr) end
+    | OAfter => match eff d with Some d' => (d', RFAfter) | None => (peff [] d, RErr) end
+    | OOk => match eff d with Some d' => (d', ROk) | None => (peff [] d, RErr) end
+    | OPartial skip => (peff skip d, RFPartial)
     end.
 
   (* result of a piece of a run: state, "no error so far", calls made, outcomes not yet consumed *)
@@ -92,9 +106,9 @@ Section Proto.
     match todo with
     | [] => {| r_db := d; r_ok := true; r_log := []; r_os := os |}
     | x :: todo' =>
-      let '(d1, r1) := do_call (o_hd os) (eff_script x) d in
+      let '(d1, r1) := do_call (o_hd os) (eff_script x) (peff_script x) d in
       if res_ok r1 then
-        let '(d2, r2) := do_call (o_hd (tl os)) (eff_setver k (S i)) d1 in
+        let '(d2, r2) := do_call (o_hd (tl os)) (eff_setver k (S i)) peff_none d1 in
         if res_ok r2 then
           let r := loop k todo' (S i) (tl (tl os)) d2 in
           {| r_db := r_db r; r_ok := r_ok r; r_log := EScript k i r1 :: EInsVer k (S i) r2 :: r_log r; r_os := r_os r |}
@@ -104,14 +118,14 @@ Section Proto.
 
   (* the head of updateScripts: CREATE TABLE IF NOT EXISTS ver [, ver_dist], SELECT max(ver) *)
   Definition prelude (c : cfg) (k : stream) (os : list outcome) (d : db) : rr :=
-    let '(d1, r1) := do_call (o_hd os) eff_create_ver d in
+    let '(d1, r1) := do_call (o_hd os) eff_create_ver peff_none d in
     if negb (res_ok r1) then {| r_db := d1; r_ok := false; r_log := [ECreateVer r1]; r_os := tl os |} else
     let '(d2, ok2, l2, os2) :=
       if clustered c then
-        let '(d2, r2) := do_call (o_hd (tl os)) eff_create_vd d1 in (d2, res_ok r2, [ECreateVerDist r2], tl (tl os))
+        let '(d2, r2) := do_call (o_hd (tl os)) eff_create_vd peff_none d1 in (d2, res_ok r2, [ECreateVerDist r2], tl (tl os))
       else (d1, true, [], tl os) in
     if negb ok2 then {| r_db := d2; r_ok := false; r_log := ECreateVer r1 :: l2; r_os := os2 |} else
-    let '(d3, r3) := do_call (o_hd os2) (eff_read c) d2 in
+    let '(d3, r3) := do_call (o_hd os2) (eff_read c) peff_none d2 in
     {| r_db := d3; r_ok := res_ok r3;
        r_log := ECreateVer r1 :: l2 ++ [EReadVer k (if res_ok r3 then d_vers d3 k else 0) r3]; r_os := tl os2 |}.
 
@@ -202,9 +216,11 @@ Section Proto.
   Definition mon_step (m : mst) (e : event) : option mst :=
     match e with
     | EScript k i r =>
-      if res_applied r then
+      if res_reached r then
         if (m_rec m k <=? i) && (i <=? m_app m k)
-        then Some {| m_app := fun k' => if stream_eqb k' k then Nat.max (m_app m k') (S i) else m_app m k'; m_rec := m_rec m |}
+        then Some (if res_applied r
+                   then {| m_app := fun k' => if stream_eqb k' k then Nat.max (m_app m k') (S i) else m_app m k'; m_rec := m_rec m |}
+                   else m)
         else None
       else Some m
     | EInsVer k v r =>
@@ -355,6 +371,118 @@ Definition exec_ch (cloud : bool) (s : stmt) (c : cat) : option cat :=
   | Unclassified => None
   end.
 
+(* ------------------------------------------------------------------ a cluster of hosts *)
+(* Generic in the per-host catalogue and statement semantics.  The state is the list of the hosts' catalogues,
+   head = the host the process is connected to (it receives every statement; the others only what is sent
+   ON CLUSTER).  A statement is (on_cluster, s).  Hosts run a statement independently of each other: a host
+   that accepts it keeps the effect whether or not another host rejects it or is not reached -- multi-host DDL
+   is not atomic.  The caller sees success only when every targeted host ran and accepted the statement. *)
+Section Cluster.
+  Variables (hcat hstmt : Type).
+  Variable hexec : hstmt -> hcat -> option hcat.
+
+  Definition cstmt := (bool * hstmt)%type.
+  Definition ccat := list hcat.
+
+  Definition is_some {A} (o : option A) : bool := match o with Some _ => true | None => false end.
+  Definition run_on (x : hstmt) (h : hcat) : hcat := match hexec x h with Some h' => h' | None => h end.
+
+  (* the hosts whose bit is false run x (and keep the effect if they accept it) *)
+  Fixpoint papply (skip : list bool) (x : hstmt) (hs : list hcat) : list hcat :=
+    match hs with
+    | [] => []
+    | h :: r => (if hd false skip then h else run_on x h) :: papply (tl skip) x r
+    end.
+  Fixpoint paccept (skip : list bool) (x : hstmt) (hs : list hcat) : bool :=
+    match hs with
+    | [] => true
+    | h :: r => (hd false skip || is_some (hexec x h)) && paccept (tl skip) x r
+    end.
+  Fixpoint skip_or (a b : list bool) : list bool :=
+    match a, b with
+    | [], _ => b
+    | _, [] => a
+    | x :: a', y :: b' => (x || y) :: skip_or a' b'
+    end.
+  (* a statement without ON CLUSTER reaches the connected host only *)
+  Definition base_skip (oc : bool) (n : nat) : list bool := if oc then [] else false :: repeat true (n - 1).
+
+  Definition cl_pexec (skip : list bool) (s : cstmt) (hs : ccat) : ccat :=
+    papply (skip_or skip (base_skip (fst s) (List.length hs))) (snd s) hs.
+  Definition cl_exec (s : cstmt) (hs : ccat) : option ccat :=
+    let sk := base_skip (fst s) (List.length hs) in
+    if paccept sk (snd s) hs then Some (papply sk (snd s) hs) else None.
+
+  (* the re-execution obligation per host: along the uninterrupted run the connected host (h0) runs every
+     statement, any other host (ho) the ON CLUSTER ones; each must accept its statement and, executed once
+     more right after itself, accept it again and change nothing *)
+  Variable hcat_eqb : hcat -> hcat -> bool.
+  Definition host_reexec (x : hstmt) (h : hcat) : option hcat :=
+    match hexec x h with
+    | Some h1 => match hexec x h1 with Some h2 => if hcat_eqb h1 h2 then Some h1 else None | None => None end
+    | None => None
+    end.
+  Fixpoint cl_reexec_ok (l : list cstmt) (h0 ho : hcat) : bool :=
+    match l with
+    | [] => true
+    | (oc, x) :: r =>
+      match host_reexec x h0 with
+      | Some h0' => if oc then match host_reexec x ho with Some ho' => cl_reexec_ok r h0' ho' | None => false end
+                    else cl_reexec_ok r h0' ho
+      | None => false
+      end
+    end.
+  (* the two tracks of the uninterrupted run *)
+  Fixpoint cl_track (l : list cstmt) (h0 ho : hcat) : option (hcat * hcat) :=
+    match l with
+    | [] => Some (h0, ho)
+    | (oc, x) :: r =>
+      match hexec x h0 with
+      | Some h0' => if oc then match hexec x ho with Some ho' => cl_track r h0' ho' | None => None end
+                    else cl_track r h0' ho
+      | None => None
+      end
+    end.
+  (* first statement that breaks the obligation: (index, on the connected host?, not re-executable?) *)
+  Fixpoint cl_first_bad (l : list cstmt) (h0 ho : hcat) (i : nat) : option (nat * bool * bool) :=
+    match l with
+    | [] => None
+    | (oc, x) :: r =>
+      match host_reexec x h0 with
+      | Some h0' =>
+        if oc then match host_reexec x ho with
+                   | Some ho' => cl_first_bad r h0' ho' (S i)
+                   | None => Some (i, false, is_some (hexec x ho))
+                   end
+        else cl_first_bad r h0' ho (S i)
+      | None => Some (i, true, is_some (hexec x h0))
+      end
+    end.
+
+  (* ... across the streams of a configuration (each stream continues where the previous one ended) *)
+  Variable cscripts : stream -> list cstmt.
+  Fixpoint cl_reexec_streams (ks : list stream) (h0 ho : hcat) : bool :=
+    match ks with
+    | [] => true
+    | k :: ks' => cl_reexec_ok (cscripts k) h0 ho &&
+                  match cl_track (cscripts k) h0 ho with Some (a, b) => cl_reexec_streams ks' a b | None => false end
+    end.
+  Fixpoint cl_first_bad_streams (ks : list stream) (h0 ho : hcat) : option (stream * (nat * bool * bool)) :=
+    match ks with
+    | [] => None
+    | k :: ks' => match cl_first_bad (cscripts k) h0 ho 0 with
+                  | Some w => Some (k, w)
+                  | None => match cl_track (cscripts k) h0 ho with Some (a, b) => cl_first_bad_streams ks' a b | None => None end
+                  end
+    end.
+  Fixpoint cl_track_streams (ks : list stream) (h0 ho : hcat) : option (hcat * hcat) :=
+    match ks with
+    | [] => Some (h0, ho)
+    | k :: ks' => match cl_track (cscripts k) h0 ho with Some (a, b) => cl_track_streams ks' a b | None => None end
+    end.
+End Cluster.
+Arguments is_some {A}.
+
 (* object names a statement mentions as the object it creates / changes (for the frame obligation: no
    script touches ver / ver_dist, which the protocol model keeps outside the catalogue) *)
 Definition targets (s : stmt) : list string :=
@@ -395,7 +523,7 @@ Inductive oevent :=
  | OOther (r : res).                           (* a call of none of these shapes *)
 
 Definition res_eqb (a b : res) : bool :=
-  match a, b with ROk, ROk | RErr, RErr | RFBefore, RFBefore | RFAfter, RFAfter => true | _, _ => false end.
+  match a, b with ROk, ROk | RErr, RErr | RFBefore, RFBefore | RFAfter, RFAfter | RFPartial, RFPartial => true | _, _ => false end.
 Definition oevent_eqb (a b : oevent) : bool :=
   match a, b with
   | OCreateVer r, OCreateVer r' | OCreateVerDist r, OCreateVerDist r' | OOther r, OOther r' => res_eqb r r'
@@ -406,6 +534,7 @@ Definition oevent_eqb (a b : oevent) : bool :=
 
 Section Obs.
   Variable scripts : stream -> list stmt.
+  Variable oncl : stream -> list bool.            (* carries {{.OnCluster}}?, parallel to scripts *)
   Variable sids : stream -> list N.               (* statement ids, parallel to scripts *)
 
   Definition sid_at (k : stream) (i : nat) : N := nth i (sids k) 0%N.
@@ -421,8 +550,9 @@ Section Obs.
   Definition stream_of_k (n : N) : option stream := find (fun k => N.eqb (stream_k k) n) all_streams.
 
   (* the monitor on observations: the stream in progress is the one of the last version read; a script
-     statement is identified by content (sid): it must be the next unapplied script of that stream or one
-     applied whose version is not recorded yet *)
+     statement is identified by content (sid): whenever one reaches the database (also when it is then rejected
+     or completes on some hosts only) it must be the next unapplied script of that stream or one applied
+     whose version is not recorded yet; only a statement that completed counts as applied *)
   Record omst := { om_cur : option stream; om_app : stream -> nat; om_rec : stream -> nat }.
   Definition omon_step (m : omst) (e : oevent) : option omst :=
     match e with
@@ -431,13 +561,15 @@ Section Obs.
                         | None => None
                         end
     | OScript sid r =>
-      if res_applied r then
+      if res_reached r then
         match om_cur m with
         | None => None
         | Some k =>
           let a := om_app m k in
           if (a <? List.length (sids k)) && N.eqb (sid_at k a) sid && negb (N.eqb sid 0) then
-            Some {| om_cur := om_cur m; om_app := fun k' => if stream_eqb k' k then S a else om_app m k'; om_rec := om_rec m |}
+            Some (if res_applied r
+                  then {| om_cur := om_cur m; om_app := fun k' => if stream_eqb k' k then S a else om_app m k'; om_rec := om_rec m |}
+                  else m)
           else if existsb (N.eqb sid) (skipn (om_rec m k) (firstn a (sids k))) && negb (N.eqb sid 0) then Some m
           else None                         (* not the next script, nor one applied and not yet recorded *)
         end
@@ -477,15 +609,21 @@ Section Obs.
   (* one process start as observed: injected outcomes, Update returned nil?, call log *)
   Record orun := { or_os : list outcome; or_ok : bool; or_items : list oitem }.
   Definition or_log (r : orun) : list oevent := expand (or_items r).
-  (* a case: configuration, the runs in order, the database the fake ended with.  By construction of the
-     generator the last two runs have no injected fault (c_clean = true): the first must converge, the
-     second must be a no-op. *)
-  Record case := { c_id : Z; c_cfg : cfg; c_runs : list orun; c_clean : bool;
-                   c_cat : cat; c_ver_tbl : bool; c_vd_tbl : bool; c_vers : list (N * N) }.
+  (* a case: configuration, number of hosts, the runs in order, the database the fake ended with (one
+     catalogue per host, the connected host first).  By construction of the generator the last two runs have
+     no injected fault (c_clean = true): the first must converge, the second must be a no-op. *)
+  Record case := { c_id : Z; c_cfg : cfg; c_nhosts : nat; c_runs : list orun; c_clean : bool;
+                   c_hosts : list cat; c_ver_tbl : bool; c_vd_tbl : bool; c_vers : list (N * N) }.
 
-  Definition ch_update (c : cfg) := update cat stmt (exec_ch (cloud c)) scripts c.
+  (* the scripts of a configuration as cluster statements: ON CLUSTER only when a cluster name is set
+     ({{.OnCluster}} expands to a blank otherwise) *)
+  Definition cl_scripts (c : cfg) (k : stream) : list (cstmt stmt) :=
+    map (fun p => (fst p && clustered c, snd p)) (combine (oncl k) (scripts k)).
+  Definition ch_update (c : cfg) :=
+    update (ccat cat) (cstmt stmt) (cl_exec cat stmt (exec_ch (cloud c))) (cl_pexec cat stmt (exec_ch (cloud c))) (cl_scripts c) c.
+  Definition hosts0 (n : nat) : ccat cat := repeat cat0 n.
 
-  Fixpoint model_runs (c : cfg) (rs : list orun) (d : db cat) : db cat * bool :=
+  Fixpoint model_runs (c : cfg) (rs : list orun) (d : db (ccat cat)) : db (ccat cat) * bool :=
     match rs with
     | [] => (d, true)
     | r :: rest =>
@@ -494,32 +632,33 @@ Section Obs.
       let '(d', ok) := model_runs c rest (r_db m) in (d', same && ok)
     end.
 
-  Definition vers_list (d : db cat) : list (N * N) :=
+  Definition vers_list {A} (d : db A) : list (N * N) :=
     map (fun k => (stream_k k, N.of_nat (d_vers d k))) (filter (fun k => negb (d_vers d k =? 0)) all_streams).
   Definition vers_eqb (a b : list (N * N)) : bool :=
     list_eqb (fun x y => N.eqb (fst x) (fst y) && N.eqb (snd x) (snd y)) a b.
 
   Definition model_mismatch (c : case) : bool :=
-    let '(d, same) := model_runs (c_cfg c) (c_runs c) (db0 cat cat0) in
-    negb (same && cat_eqb (d_cat d) (c_cat c) && Bool.eqb (d_ver_tbl d) (c_ver_tbl c)
+    let '(d, same) := model_runs (c_cfg c) (c_runs c) (db0 (ccat cat) (hosts0 (c_nhosts c))) in
+    negb (same && list_eqb cat_eqb (d_cat d) (c_hosts c) && Bool.eqb (d_ver_tbl d) (c_ver_tbl c)
           && Bool.eqb (d_vd_tbl d) (c_vd_tbl c) && vers_eqb (vers_list d) (c_vers c)).
 
   (* what an uninterrupted Update on an empty database ends with *)
-  Definition expected_final (c : cfg) : db cat := r_db (ch_update c [] (db0 cat cat0)).
+  Definition expected_final (c : cfg) (n : nat) : db (ccat cat) := r_db (ch_update c [] (db0 (ccat cat) (hosts0 n))).
 
   (* the property's oracle on the OBSERVED behaviour:
      1 never ahead / file order: omon_ok on the concatenated logs of all runs;
-     2 convergence: the first clean run returns nil and the database ends as an uninterrupted run's;
-     3 no-op: the second clean run executes no script statement and records no version. *)
+     2 convergence: the first clean run returns nil;
+     3 ... and the database (every host) ends as an uninterrupted run's;
+     4 no-op: the second clean run executes no script statement and records no version. *)
   Definition spec_code (c : case) : N :=
     let logs := flat_map or_log (c_runs c) in
     if negb (omon_ok logs) then 1%N else
     if negb (c_clean c) then 0%N else
     match rev (c_runs c) with
     | last :: conv :: _ =>
-      let e := expected_final (c_cfg c) in
+      let e := expected_final (c_cfg c) (c_nhosts c) in
       if negb (or_ok conv && or_ok last) then 2%N
-      else if negb (cat_eqb (d_cat e) (c_cat c) && vers_eqb (vers_list e) (c_vers c)) then 3%N
+      else if negb (list_eqb cat_eqb (d_cat e) (c_hosts c) && vers_eqb (vers_list e) (c_vers c)) then 3%N
       else if existsb o_is_script (or_log last) then 4%N
       else 0%N
     | _ => 0%N
